@@ -18,6 +18,8 @@ ATOM_VALUES = {
     "f0": 0.0, "fm0": -0.0, "f1": 1.0, "f15": 1.5, "nan": float("nan"), "nan2": NAN2, "inf": float("inf"),
     "ninf": float("-inf"),
     "sa": "a", "sempty": "", "ssurr": "\udc80x", "snonbmp": "\U0001F600", "s1": "1",
+    # a lone surrogate next to a character that only newer Unicode databases call printable (U+1FAD0, Unicode 13)
+    "ssurr2": "\ud800\U0001fad0",
     "ba": b"a", "bempty": b"", "none": None, "ellipsis": Ellipsis,
 }
 
@@ -90,7 +92,7 @@ def atoms_tree(x):
                 _LEAF_ATOM[("f", cpy.fbits(v))] = a
             elif type(v) is str:
                 _LEAF_ATOM[("s", v)] = a
-                _LEAF_ATOM[("s", repr(v))] = "repr:" + a
+                _LEAF_ATOM[("s", ascii(v))] = "repr:" + a
             elif type(v) is bytes:
                 _LEAF_ATOM[("s", "b64:" + base64.b64encode(v).decode("ascii"))] = "b64:" + a
     t = type(x)
@@ -234,6 +236,31 @@ def carrier(value, pos):
     if pos == "codename":
         return CodeData(blocks=((Instruction("LOAD_CONST", Constant(None), line_number=1), ret),), **dict(kw, name=value))
     raise ValueError(pos)
+
+
+def all_fields_carrier():
+    """hand-built data in which every field of every dataclass, private ones included, is non-default"""
+    from code_data import (AdditionalLine, Args, Cellvar, CodeData, Constant, Freevar, Function, Instruction, Jump, Name,
+                           NoArg, Varname)
+
+    blocks = (
+        (Instruction("LOAD_FAST", Varname("p", 0), line_number=3),
+         Instruction("POP_JUMP_IF_FALSE", Jump(1), _n_args_override=2, line_number=3, _line_offsets_override=(0, 2)),
+         Instruction("LOAD_GLOBAL", Name("g", 1), line_number=4),
+         Instruction("POP_TOP", NoArg(7), line_number=4)),
+        (Instruction("LOAD_CONST", Constant((1, 2.5, b"x", None, ..., frozenset({3})), 2), line_number=5),
+         Instruction("LOAD_DEREF", Cellvar("c", 0), line_number=5),
+         Instruction("LOAD_DEREF", Freevar("fr"), line_number=6),
+         Instruction("JUMP_FORWARD", Jump(2, True), line_number=6),
+         Instruction("CALL_FUNCTION", 2, line_number=7)),
+        (Instruction("RETURN_VALUE", line_number=8),),
+    )
+    return CodeData(
+        blocks=blocks, filename="<all>", first_line_number=3, name="allfields", stacksize=5,
+        type=Function(Args(("po",), ("p",), "va", ("ko",), "vk"), "the doc", "GENERATOR"), freevars=("fr",),
+        future_annotations=True, _nested=True, _additional_line=AdditionalLine(9, (1, -1)),
+        _additional_args=(Name("unused", 0), Constant("the doc", 0), Constant(None, 1)),
+    )
 
 
 CONST_POS = ["operand", "additional", "nested"]
@@ -398,6 +425,10 @@ def produce(path, files=(), sources=(), terms=(), max_units=800):
                     emit("c:%s:%s:%s" % (VER, fn, p), CodeData.from_code(c))
                 except BaseException:  # noqa
                     pass
+        try:
+            emit("hand:%s:allfields" % VER, all_fields_carrier())
+        except BaseException:  # noqa
+            pass
         for tid, term in terms:
             v = term_value(term)
             for pos in CONST_POS + (STR_POS if type(v) is str else []):
